@@ -249,32 +249,39 @@ C07(pre, e, post, acc, line) ==
            net(x) == RAdd(RSub(RefAssets(x), RefLiabs(x)), RefFees(x))
            dNet == RSub(net(q), net(b))
            tol == RAdd(TolOp(pre, post, bn), RMul(U, RAdd(R(b.tas), RInt(2))))
-       IN (h.known) =>
-       /\ Chk("C07", "assets_worth_less_than_liabilities", line, RLt(RSub(h.av, h.tol), RAdd(h.lv, h.tol)), [acct |-> an])
-       /\ Chk("C07", "assets_worth_less_than_ten_cents", line, RLt(RSub(h.av, h.tol), BANKRUPT_USD), [acct |-> an])
-       /\ Chk("C07", "account_owes_in_this_bank", line, RGt(RMul(R(lsh), R(b.lsv)), RSub(EPS, U)), [acct |-> an, bank |-> bn])
-       /\ Chk("C07", "only_admins_unless_permissionless", line,
-              Bit(b.flags, BANK_PERMISSIONLESS_BAD_DEBT) \/ signer \in {g.admin, g.risk_admin}, [signer |-> signer])
-       /\ Chk("C07", "not_in_flashloan_or_receivership", line, ~Bit(a.flags, ACC_FLASHLOAN) /\ ~Bit(a.flags, ACC_RECEIVERSHIP), [acct |-> an])
-       /\ Chk("C07", "account_disabled_and_debt_cleared", line,
-              Bit(post.accts[an].flags, ACC_DISABLED) /\ RLt(RMul(R(PosBits(post.accts[an], bn, "l")), R(q.lsv)), EPS), [acct |-> an])
-       /\ Chk("C07", "depositor_shares_untouched", line,
-              \A x \in DOMAIN pre.accts : PosBits(pre.accts[x], bn, "a") = PosBits(post.accts[x], bn, "a"), [bank |-> bn])
-       /\ Chk("C07", "share_value_never_negative", line, ~BIsNeg(q.asv), [bank |-> bn])
-       /\ Chk("C07", "insurance_pays_first_up_to_its_balance", line,
-              \* whatever insurance could cover was taken from the insurance vault (within one token of rounding up)
-              IF feeMint THEN RGe(RAdd(liqIn, ROne), RMin(bad, liqIn)) /\ RLe(insOut, insPre)
-              ELSE RGe(RAdd(insOut, tol), covered) /\ RLe(insOut, RAdd(covered, RAdd(ROne, tol))) /\ liqIn = insOut,
-              [bank |-> bn, ins_out |-> insOut[1], covered_num |-> covered[1], covered_den |-> covered[2]])
-       \* depositors (one common share value, shares untouched) lose exactly the uncovered amount:
-       \* net claims (deposits - debt + fees) move by exactly what insurance covered (interest accrued in the same
-       \* instruction conserves net claims, C06)
-       /\ (~feeMint /\ ~BIsZero(q.asv)) =>
-            Chk("C07", "remainder_socialized_exactly_and_pro_rata", line, RLe(RAbs(RSub(dNet, covered)), tol),
-                [bank |-> bn, soc_num |-> soc[1], soc_den |-> soc[2], dnet_num |-> dNet[1], dnet_den |-> dNet[2]])
-       /\ (BIsZero(q.asv) /\ ~BIsZero(b.asv)) =>
-            Chk("C07", "share_value_zeroed_only_when_deposits_consumed", line, RGe(RAdd(soc, tol), RefAssets(b)), [bank |-> bn])
-       /\ Chk("C07", "wiped_out_bank_is_shut", line, (BIsZero(q.asv) /\ ~BIsZero(b.tas)) => q.cfg.op_state = OP_KILLED, [bank |-> bn])
+       IN
+       \* "assets worth less than ten cents" can only be established from usable prices of everything the account holds
+       /\ Chk("C07", "every_holding_priced_before_write_off", line,
+              \A i \in ActiveSlots(a) :
+                 LET pr == RefPrice(pre, e, a.bal[i].bank, "TW") IN
+                 (pr.known /\ (BGe(a.bal[i].l, FONE) \/ (BGe(a.bal[i].a, FONE) /\ pre.banks[a.bal[i].bank].cfg.risk_tier = 0))) => pr.usable # "no",
+              [acct |-> an])
+       /\ (h.known) =>
+            /\ Chk("C07", "assets_worth_less_than_liabilities", line, RLt(RSub(h.av, h.tol), RAdd(h.lv, h.tol)), [acct |-> an])
+            /\ Chk("C07", "assets_worth_less_than_ten_cents", line, RLt(RSub(h.av, h.tol), BANKRUPT_USD), [acct |-> an])
+            /\ Chk("C07", "account_owes_in_this_bank", line, RGt(RMul(R(lsh), R(b.lsv)), RSub(EPS, U)), [acct |-> an, bank |-> bn])
+            /\ Chk("C07", "only_admins_unless_permissionless", line,
+                   Bit(b.flags, BANK_PERMISSIONLESS_BAD_DEBT) \/ signer \in {g.admin, g.risk_admin}, [signer |-> signer])
+            /\ Chk("C07", "not_in_flashloan_or_receivership", line, ~Bit(a.flags, ACC_FLASHLOAN) /\ ~Bit(a.flags, ACC_RECEIVERSHIP), [acct |-> an])
+            /\ Chk("C07", "account_disabled_and_debt_cleared", line,
+                   Bit(post.accts[an].flags, ACC_DISABLED) /\ RLt(RMul(R(PosBits(post.accts[an], bn, "l")), R(q.lsv)), EPS), [acct |-> an])
+            /\ Chk("C07", "depositor_shares_untouched", line,
+                   \A x \in DOMAIN pre.accts : PosBits(pre.accts[x], bn, "a") = PosBits(post.accts[x], bn, "a"), [bank |-> bn])
+            /\ Chk("C07", "share_value_never_negative", line, ~BIsNeg(q.asv), [bank |-> bn])
+            /\ Chk("C07", "insurance_pays_first_up_to_its_balance", line,
+                   \* whatever insurance could cover was taken from the insurance vault (within one token of rounding up)
+                   IF feeMint THEN RGe(RAdd(liqIn, ROne), RMin(bad, liqIn)) /\ RLe(insOut, insPre)
+                   ELSE RGe(RAdd(insOut, tol), covered) /\ RLe(insOut, RAdd(covered, RAdd(ROne, tol))) /\ liqIn = insOut,
+                   [bank |-> bn, ins_out |-> insOut[1], covered_num |-> covered[1], covered_den |-> covered[2]])
+            \* depositors (one common share value, shares untouched) lose exactly the uncovered amount:
+            \* net claims (deposits - debt + fees) move by exactly what insurance covered (interest accrued in the same
+            \* instruction conserves net claims, C06)
+            /\ (~feeMint /\ ~BIsZero(q.asv)) =>
+                 Chk("C07", "remainder_socialized_exactly_and_pro_rata", line, RLe(RAbs(RSub(dNet, covered)), tol),
+                     [bank |-> bn, soc_num |-> soc[1], soc_den |-> soc[2], dnet_num |-> dNet[1], dnet_den |-> dNet[2]])
+            /\ (BIsZero(q.asv) /\ ~BIsZero(b.asv)) =>
+                 Chk("C07", "share_value_zeroed_only_when_deposits_consumed", line, RGe(RAdd(soc, tol), RefAssets(b)), [bank |-> bn])
+            /\ Chk("C07", "wiped_out_bank_is_shut", line, (BIsZero(q.asv) /\ ~BIsZero(b.tas)) => q.cfg.op_state = OP_KILLED, [bank |-> bn])
   /\ (IsProgramEvent(e)) =>
        \A bn \in acc.killed :
          Has(post.banks, bn) =>
@@ -352,7 +359,7 @@ C13(pre, e, post, line) ==
        \A bn \in DOMAIN post.banks :
          LET q == post.banks[bn] g == post.groups[q.group]
              changed == ~Has(pre.banks, bn) \/ pre.banks[bn].cfg # q.cfg \/ pre.banks[bn].emode # q.emode
-         IN (changed /\ q.cfg.asset_tag \in {0, 1}) =>
+         IN (changed /\ q.cfg.asset_tag \in {0, 1, 2}) =>
             LET v == ConfigValid(q, g) IN
             /\ Chk("C13", "weights_coherent", line, v.weights, [bank |-> bn, ev |-> e.ev])
             /\ Chk("C13", "isolated_has_zero_asset_weights", line, v.isolated, [bank |-> bn, ev |-> e.ev])
@@ -394,4 +401,14 @@ C14Bank(pre, e, post, line) ==
   /\ (e.ev \in {"withdraw", "repay"}) => (gate(e.a.bank, {OP_PAUSED, OP_KILLED}) /\ notBlamed(e.a.bank))
   /\ (e.ev = "bankruptcy") => gate(e.a.bank, {OP_PAUSED, OP_KILLED})
   /\ (e.ev = "liquidate") => (gate(e.a.asset_bank, {OP_PAUSED, OP_KILLED}) /\ gate(e.a.liab_bank, {OP_PAUSED, OP_KILLED}))
+  \* deposits in a reduce-only bank count for nothing toward new borrowing (with or without an e-mode weight):
+  \* the reference valuation zeroes them for the initial requirement, so an accepted borrow / withdrawal must be
+  \* initially healthy without them
+  /\ (e.ev \in {"borrow", "withdraw"} /\ Ok(e) /\ Has(post.accts, e.a.acct)) =>
+       LET a == post.accts[e.a.acct]
+           ro == {i \in ActiveSlots(a) : BGe(a.bal[i].a, FONE) /\ post.banks[a.bal[i].bank].cfg.op_state = OP_REDUCE_ONLY}
+           hasDebt == \E i \in ActiveSlots(a) : BGe(a.bal[i].l, FONE)
+           h == HealthRef(post, e, a, "Init", "fav")
+       IN (ro # {} /\ hasDebt /\ h.known /\ ~Bit(a.flags, ACC_FLASHLOAN) /\ ~Bit(a.flags, ACC_RECEIVERSHIP)) =>
+          Chk("C14", "reduce_only_deposits_count_for_nothing_toward_new_borrowing", line, RGe(Health(h), RNeg(h.tol)), [acct |-> e.a.acct, ev |-> e.ev])
 =============================================================================
